@@ -38,7 +38,12 @@ RULE = ("histories = (a) one legacy grid: class in SingleGrid/MultiGrid/HexSingl
         "torus_adj_2d; a third of the histories never read empties, a fifth read it first; 42% hand coordinates over in a rare legal form "
         "(NumPy int64/int32 scalars, bools for 0/1, an int subclass); list-taking calls with lengths crossing 1..257; a SCALE stream "
         "(implementation+oracle only: 100x100..200x200 grids filled to just above the move_to_empty cutoff with 60-120 move_to_empty "
-        "calls, 2049 agents in one MultiGrid cell, 1025x3 / 2x4097 grids with coordinates beyond 256 / 65536 / 2**31); every read is asked twice, iterators are first started and abandoned half-way; a populated second grid "
+        "calls, 2049 agents in one MultiGrid cell, 1025x3 / 2x4097 grids with coordinates beyond 256 / 65536 / 2**31); a USER-CODE stream "
+        "(implementation+oracle only, 56 histories in quick: agents whose `pos` is a property that stores and then notifies; listeners raise "
+        "six exception types or re-enter the grid - remove / move the arriving agent, place a spare agent, read empties / empty_mask - during "
+        "place / move / swap / move_to_empty / move_agent_to_one_of / remove on all four classes; the views must agree after every call, "
+        "returned or raised); 30% of the modelled histories run on a user subclass of the grid class (docstring-only / extra constructor "
+        "arguments / place_agent+remove_agent overridden calling super); every read is asked twice, iterators are first started and abandoned half-way; a populated second grid "
         "of the same class is alive in the process; after the last call a fault sweep issues every applicable rejecting call; 9% are an "
         "ORACLE-ONLY stream (agents whose truth value is False, slices with positive/negative steps); (b) one NetworkGrid (1..6 nodes, "
         "1..5 agents incl. falsy ones): place/move/remove (also towards unknown nodes), is_cell_empty, get_cell_list_contents, "
@@ -78,8 +83,9 @@ ASSUMPTIONS = [
     "move_agent_to_one_of via masks, add/remove_property_layer belong to C11",
     "hex grids: placement, movers, emptiness views, indexing forms, torus_adj_2d; hex neighbourhoods are C09",
     "the float cutoff of move_to_empty is not modelled: which branch ran is an input, the theorems hold for both branches",
-    "move_agent_to_one_of('closest') shuffles the caller's list of offers in place (a permutation; checked as such), agents with a "
-    "user-defined __eq__ are not generated",
+    "move_agent_to_one_of('closest') shuffles the caller's list of offers in place (a permutation; checked as such); agents with a "
+    "value-based __eq__/__hash__ are not generated (grid.agents is an AgentSet, a dict keyed by the agents: equal agents collapse there "
+    "by design, and MultiGrid cells are lists searched with ==); user listeners never touch an agent that is in the middle of a call",
 ]
 CLASSES = ["SingleGrid", "MultiGrid", "HexSingleGrid", "HexMultiGrid"]
 E_OOB, E_CELL, E_NOEMPTY, E_NOTON, E_BADSEL, E_NOPOS, E_KEY, E_INDEX = 1, 2, 3, 4, 5, 6, 8, 9
@@ -389,6 +395,8 @@ def gen_cases(rng, tier):
         mode = rng.choice(["nobuild", "nobuild", "buildfirst", "mixed", "mixed", "mixed"])
         ops = _gen_history(rng, cls, w, h, torus, nag, length, mode, nlayers=layers)
         k = _mk(cls, w, h, torus, layers, nag, ops, rseed=rng.randrange(1 << 30))
+        if rng.random() < 0.3:
+            k["gridsub"] = rng.choice([1, 2, 3])      # a user subclass of the grid class (docstring-only / extra ctor args / hooks calling super)
         r2 = rng.random()
         if r2 < 0.2:
             k["np"] = True          # coordinates handed over as NumPy integer scalars (int64 / int32 mixed)
@@ -422,7 +430,7 @@ def gen_cases(rng, tier):
         + [["cell_list", [3] * (n - 1) + [0]] for n in THRESHOLDS]})
     for _ in range(120 if tier == "quick" else 1500):
         cases.append(_gen_net(rng))
-    return cases + _scale_cases(tier)
+    return cases + _scale_cases(tier) + _user_cases(rng, tier)
 
 
 def gen_fault_cases(rng, tier):
@@ -434,7 +442,7 @@ def gen_fault_cases(rng, tier):
     grid = [c for c in cs if c["cls"] != "NetworkGrid"]
     fixed, rnd = grid[:len(_fixed_cases())], grid[len(_fixed_cases()):]
     k = 90 if tier == "quick" else 1200
-    return fixed + net[:(70 if tier == "quick" else 900)] + [c for c in rnd if not c.get("scale")][:k] + [c for c in cs if c.get("scale")]
+    return fixed + net[:(70 if tier == "quick" else 900)] + [c for c in rnd if not c.get("scale") and not c.get("user")][:k] + [c for c in cs if c.get("scale") or c.get("user")]
 
 
 def enumerate_cases(tier, broken=False):
@@ -446,6 +454,8 @@ def enumerate_cases(tier, broken=False):
         for k in _threshold_cases():
             yield k
         for k in _scale_cases(tier, broken=True):
+            yield k
+        for k in _user_cases(_random.Random(4242), tier, broken=True):
             yield k
     depth = 3
     shapes = [(2, 2), (2, 1)] if tier == "thorough" else [(2, 1)]
@@ -875,9 +885,203 @@ def _run_scale(case):
     return {"obs": [], "failures": failures, "model": False}
 
 
+USER_LISTENERS = ["raise_on_trap", "raise_on_set", "raise_on_none", "remove_on_trap", "move_on_trap", "place_other_on_trap", "read"]
+USER_EXC = ["Forbidden", "KeyError", "StopIteration", "IndexError", "AttributeError", "TypeError"]
+
+
+def _user_cases(rng, tier, broken=False):
+    """USER-CODE stream (implementation + oracle only): agents whose `pos` is a property that stores the value and then notifies
+    listeners; the listeners raise (the caller catches and carries on) or re-enter the grid (remove / move the arriving agent,
+    place another one, read empties / empty_mask) in the middle of place / move / swap / move_to_empty / move_agent_to_one_of /
+    remove, on all four classes, with the empties set built or not"""
+    out = []
+    n = (48 if tier == "quick" else 600) if not broken else 400
+    for i in range(n):
+        cls = CLASSES[i % 4]
+        w, h = rng.choice([(2, 2), (3, 2), (3, 3), (1, 3), (4, 2)])
+        nag = rng.randint(2, 4)
+        cells = [[x, y] for x in range(w) for y in range(h)]
+        trap = rng.choice(cells)
+        other = rng.choice([c for c in cells if c != trap] or cells)
+        listeners = {}
+        for a in range(1, nag + 1):
+            if rng.random() < 0.7:
+                listeners[str(a)] = [rng.choice(USER_LISTENERS), rng.choice(USER_EXC)]
+        ops = [rng.choice([["empties"], ["mask"], ["noop"]])]
+        for _ in range(rng.randint(4, 14)):
+            a = rng.randint(1, nag)
+            tgt = trap if rng.random() < 0.5 else rng.choice(cells)
+            k = rng.choice(["place", "place", "move", "move", "move", "remove", "swap", "move_to_empty", "move_one_of", "empties", "mask"])
+            if k in ("place", "move"):
+                ops.append([k, a, tgt[0] + rng.choice([0, 0, w]), tgt[1]])
+            elif k == "remove" or k == "move_to_empty":
+                ops.append([k, a])
+            elif k == "swap":
+                ops.append([k, a, rng.randint(1, nag)])
+            elif k == "move_one_of":
+                ops.append([k, a, [tgt, rng.choice(cells)], rng.choice(["random", "closest"])])
+            else:
+                ops.append([k])
+        out.append({"cls": cls, "user": True, "w": w, "h": h, "torus": rng.random() < 0.5, "n": nag, "trap": trap, "other": other,
+                    "listeners": listeners, "rseed": rng.randrange(1 << 30), "ops": ops})
+    # spelled out: the two situations of a notifying `pos`, on every class, empties built and not built
+    for cls in CLASSES:
+        for built in (False, True):
+            pre = [["empties"]] if built else []
+            out.append({"cls": cls, "user": True, "w": 3, "h": 3, "torus": True, "n": 2, "trap": [2, 2], "other": [0, 2], "rseed": 1,
+                        "listeners": {"1": ["raise_on_trap", "Forbidden"]},
+                        "ops": pre + [["place", 1, 0, 0], ["place", 2, 1, 1], ["move", 1, 2, 2], ["mask"], ["empties"], ["move", 2, 0, 1], ["move", 1, 1, 0]]})
+            out.append({"cls": cls, "user": True, "w": 3, "h": 3, "torus": True, "n": 2, "trap": [2, 2], "other": [0, 2], "rseed": 1,
+                        "listeners": {"1": ["remove_on_trap", "Forbidden"]},
+                        "ops": pre + [["place", 1, 0, 0], ["place", 2, 1, 1], ["move", 1, 2, 2], ["mask"], ["empties"], ["place", 1, 2, 2], ["move", 2, 2, 2]]})
+    return out
+
+
+def _run_user(case):
+    import mesa
+    from mesa import space
+
+    name, w, h, torus, n = case["cls"], case["w"], case["h"], case["torus"], case["n"]
+    single = "Single" in name
+    cells = [(x, y) for x in range(w) for y in range(h)]
+    trap, other = tuple(case["trap"]), tuple(case["other"])
+    failures = []
+
+    class Forbidden(Exception):
+        pass
+    excs = {"Forbidden": Forbidden, "KeyError": KeyError, "StopIteration": StopIteration, "IndexError": IndexError,
+            "AttributeError": AttributeError, "TypeError": TypeError}
+
+    class Walker(mesa.Agent):
+        """`pos` is a property: the setter stores the value, then notifies the listeners"""
+
+        def __init__(self, m):
+            self._pos = None
+            self.listeners = []
+            super().__init__(m)
+
+        @property
+        def pos(self):
+            return self._pos
+
+        @pos.setter
+        def pos(self, value):
+            old, self._pos = self._pos, value
+            for fn in list(getattr(self, "listeners", ())):
+                fn(self, old, value)
+
+    with warnings.catch_warnings():
+        warnings.simplefilter("ignore")
+        model = mesa.Model(seed=1)
+        model.random = _random.Random(case.get("rseed", 0))
+        g = getattr(space, name)(w, h, torus)
+        agents = {}
+        for aid in range(1, n + 1):
+            a = Walker(model)
+            a._verif_id = aid
+            agents[aid] = a
+        spare = Walker(model)
+        spare._verif_id = n + 1
+    busy = [False]
+
+    def mk_listener(kind, exc):
+        def fn(agent, old, new):
+            if busy[0]:
+                return
+            at_trap = new is not None and (int(new[0]) % w, int(new[1]) % h) == trap
+            busy[0] = True
+            try:
+                if kind == "raise_on_trap" and at_trap:
+                    raise excs[exc]("user code objects")
+                if kind == "raise_on_set" and new is not None:
+                    raise excs[exc]("user code objects")
+                if kind == "raise_on_none" and new is None:
+                    raise excs[exc]("user code objects")
+                if kind == "remove_on_trap" and at_trap:
+                    g.remove_agent(agent)
+                if kind == "move_on_trap" and at_trap:
+                    g.move_agent(agent, other)
+                if kind == "place_other_on_trap" and at_trap and spare.pos is None:
+                    g.place_agent(spare, other)       # a spare agent no call of the history touches
+                if kind == "read":
+                    _ = sorted(g.empties)
+                    _ = g.empty_mask.sum()
+                    g.exists_empty_cells()
+            finally:
+                busy[0] = False
+        return fn
+    for aid, (kind, exc) in (case.get("listeners") or {}).items():
+        agents[int(aid)].listeners.append(mk_listener(kind, exc))
+
+    def fail(key, i, what):
+        failures.append({"key": key, "op": i, "what": f"{name}({w}x{h}, torus={torus}) [user-code stream, listeners {case.get('listeners')}, trap {trap}]: {what}"})
+
+    def consistent(i, op, how):
+        raw = {c: _ids(g._grid[c[0]][c[1]]) for c in cells}
+        for aid, a in list(agents.items()) + [(n + 1, spare)]:
+            p = None if a.pos is None else (int(a.pos[0]), int(a.pos[1]))
+            holders = [c for c in cells for x in raw[c] if x == aid]
+            if holders != ([] if p is None else [p]):
+                fail(f"C08/{name}/pos-contents-disagree", i, f"after {op} ({how}) agent {aid} has pos {p} but is held by cells {holders}")
+        empt = [c for c in cells if not raw[c]]
+        if single and any(len(v) > 1 for v in raw.values()):
+            fail(f"C08/{name}/two-agents-in-cell", i, f"after {op} ({how}) a cell holds two agents: {raw}")
+        m = g.empty_mask
+        if [c for c in cells if bool(m[c[0], c[1]])] != empt:
+            fail(f"C08/{name}/empty_mask", i, f"after {op} ({how}) empty_mask is True at {[c for c in cells if bool(m[c[0], c[1]])]}, the cells without agents are {empt}")
+        if g._empties_built and sorted(g._empties) != empt:
+            fail(f"C08/{name}/empties", i, f"after {op} ({how}) `empties` is {sorted(g._empties)}, the cells without agents are {empt}")
+        if [c for c in cells if g.is_cell_empty(c)] != empt:
+            fail(f"C08/{name}/is_cell_empty", i, f"after {op} ({how}) is_cell_empty disagrees with the contents")
+        with warnings.catch_warnings():
+            warnings.simplefilter("ignore")
+            if sorted(a._verif_id for a in g.agents) != sorted(x for c in cells for x in raw[c]):
+                fail(f"C08/{name}/readers-disagree", i, f"after {op} ({how}) grid.agents disagrees with the contents {raw}")
+
+    for i, op in enumerate(case["ops"]):
+        k = op[0]
+        how = "returned"
+        try:
+            with warnings.catch_warnings():
+                warnings.simplefilter("ignore")
+                if k == "place":
+                    a = agents.get(op[1])
+                    if a is None or a.pos is not None or not (0 <= op[2] < w and 0 <= op[3] < h):
+                        continue
+                    g.place_agent(a, (op[2], op[3]))
+                elif k in ("move", "remove", "move_to_empty", "move_one_of"):
+                    a = agents.get(op[1])
+                    if a is None or a.pos is None:
+                        continue
+                    if k == "move":
+                        g.move_agent(a, (op[2], op[3]))
+                    elif k == "remove":
+                        g.remove_agent(a)
+                    elif k == "move_to_empty":
+                        g.move_to_empty(a)
+                    else:
+                        g.move_agent_to_one_of(a, [tuple(c) for c in op[2]], selection=op[3])
+                elif k == "swap":
+                    if op[1] in agents and op[2] in agents:
+                        g.swap_pos(agents[op[1]], agents[op[2]])
+                elif k == "empties":
+                    _ = g.empties
+                elif k == "mask":
+                    _ = g.empty_mask
+        except Exception as e:  # noqa: BLE001  user code objected, or the grid rejected the call: the caller carries on
+            how = f"raised {type(e).__name__}"
+        consistent(i, op, how)
+    if not failures:
+        _ = g.empties
+        consistent(len(case["ops"]), ["<end>"], "after reading empties")
+    return {"obs": [], "failures": failures, "model": False}
+
+
 def run_impl(case):
     if case.get("scale"):
         return _run_scale(case)
+    if case.get("user"):
+        return _run_user(case)
     if case["cls"] == "NetworkGrid":
         return _run_net(case)
     import mesa
@@ -895,6 +1099,34 @@ def run_impl(case):
         model.random = rec
         nl = int(case.get("layers") or 0)
         lay = [space.PropertyLayer(f"layer{j}", w, h, j, dtype=int) for j in range(nl)]
+        gs = int(case.get("gridsub") or 0)
+        if gs == 1:
+            cls = type("DocOnly" + name, (cls,), {"__doc__": "a user subclass that only changes the docstring"})
+        elif gs == 2:
+            base2 = cls
+
+            class WithArgs(base2):
+                """extra constructor arguments, passed on to the library class"""
+
+                def __init__(self, width, height, torus, *rest, label="mine", **kw):
+                    self.label = label
+                    super().__init__(width, height, torus, *rest, **kw)
+            cls = WithArgs
+        elif gs == 3:
+            base3 = cls
+
+            class Counting(base3):
+                """overrides the public hooks and calls super()"""
+                placed_count = 0
+
+                def place_agent(self, agent, pos):
+                    type(self).placed_count += 1
+                    return super().place_agent(agent, pos)
+
+                def remove_agent(self, agent):
+                    self.last_removed = agent
+                    return super().remove_agent(agent)
+            cls = Counting
         g = cls(w, h, torus) if nl == 0 else cls(w, h, torus, lay[0]) if nl == 1 else cls(w, h, torus, lay)
         lshadow = {j: {c: j for c in cells} for j in range(nl)}      # what the layers must hold (statement: last write)
         # prior history in the same process: a second grid of the same class, alive and populated, must not matter
@@ -923,10 +1155,14 @@ def run_impl(case):
         class FalsyLen(Sub):
             def __len__(self):
                 return 0
+
+        class IterableAgent(mesa.Agent):
+            def __iter__(self):
+                return iter(())
         falsy = set(case.get("falsy") or [])
         agents = {}
         for aid in range(1, n + 1):
-            kls = (FalsyBool if aid % 2 else FalsyLen) if aid in falsy else (mesa.Agent, Sub, SubSub)[aid % 3]
+            kls = (FalsyBool, FalsyLen, IterableAgent)[aid % 3] if aid in falsy else (mesa.Agent, Sub, SubSub)[aid % 3]
             a = kls(model)
             a._verif_id = aid
             agents[aid] = a
@@ -1632,6 +1868,9 @@ def coq_case(case):
     if case["cls"] == "NetworkGrid":
         return (f"NetCase {{| nk_nodes := {L.zlist(case['nodes'])}; nk_n := {L.z(case['n'])}; "
                 f"nk_ops := {L.lst([_coq_nop(o) for o in ops])} |}}")
+    if case.get("user"):
+        return (f"GridCase {{| k_cfg := {{| c_w := {L.z(case['w'])}; c_h := {L.z(case['h'])}; c_torus := {L.b(case['torus'])}; "
+                f"c_multi := {L.b('Multi' in case['cls'])} |}}; k_n := 0; k_layers := 0; k_ops := [] |}}")
     if case.get("scale"):     # implementation + oracle only: the model is not run on these (an empty history for replay files)
         return (f"GridCase {{| k_cfg := {{| c_w := {L.z(case['w'])}; c_h := {L.z(case['h'])}; c_torus := {L.b(case['torus'])}; "
                 f"c_multi := {L.b('Multi' in case['cls'])} |}}; k_n := 0; k_layers := 0; k_ops := [] |}}")
@@ -1660,6 +1899,8 @@ def op_kinds(case):
     out = []
     if case.get("scale"):
         return [case["cls"] + ":scale/" + case["scale"]]
+    if case.get("user"):
+        return [case["cls"] + ":user/" + op[0] for op in case["ops"]]
     if case["cls"] == "NetworkGrid":
         return ["NetworkGrid:" + op[0] for op in case["ops"]]
     for op in case["ops"]:
@@ -1702,7 +1943,8 @@ LEVEL_TEXT = ("44 machine-checked Coq theorems (12 non-vacuity Examples) over tw
 LEVEL_NOTE = ("Theorems are about the models (the code with the committed fixes C08-1 MultiGrid empty_mask, C08-2 SingleGrid.move_agent "
               "atomic, C08-3 toroidal _distance_squared, C08-4 NetworkGrid.move_agent atomic; plus 5b51fea _Grid.agents keeps falsy agents, "
               "and fixes/C08-5 (empty_mask indexed with plain ints: bool coordinates) - until C08-5 is committed the check reports the bool-"
-              "coordinate defect on /repo (keys C08/<cls>/empty_mask and its consequences); "
+              "coordinate defect on /repo (keys C08/<cls>/empty_mask and its consequences); fixes/C08-6 (MultiGrid.place_agent assigns agent.pos "
+              "last) - until it is committed the user-code stream reports C08/MultiGrid|HexMultiGrid/empties|empty_mask on /repo; "
               "found independently by the round-5 falsy-agent stream). One _refuted witness is kept on purpose: the inherited "
               "_Grid.move_agent is not atomic on a SingleGrid (why C08-2 exists). Oracle-only: falsy agents, stepped slices, argument "
               "non-mutation, repeatability, fault sweep. Trusted: Coq kernel, pyexpr + the two table modules, the DSL interpreter, the "
